@@ -9,92 +9,10 @@ COMMON_NOTE = ("Trusted: Lean 4.33.0 kernel; axioms propext/Classical.choice/Quo
                "the hand-written model is tied to /repo's working tree by the correspondence run (F: bit-exact binary64, "
                "X: exact integers on the dyadic grid) and by an independent Python oracle of the property; harness/ and CPython. ")
 
-CLAIMS = {
- "C07": dict(
-   text="Theorems over unbounded Int timestamps / any list length about the code-shaped model (lax-crop match list, tolerant "
-        "deleteEntry in reverse order, re-insertion of the two remnants through insertEntry, shrink loop, re-join): a>=b is "
-        "rejected; 'error' raises CollisionError iff something overlaps; without shrinking the result is well-formed, keeps "
-        "name/span and its entries are exactly the outside pieces of the original entries (truncate) or the non-overlapping "
-        "entries (categorical); label-at-time is none on [a,b) and unchanged elsewhere; with shrinking the span end decreases "
-        "by exactly b-a, every later time sees the tier b-a later, and a straddling interval comes out as the single interval "
-        "<s, e-(b-a), l>. Layer R: the repaired shift a+(x-b) maps b onto a exactly and is monotone under any monotone "
-        "rounding, so it cannot create overlaps. Tied to the code by bit-exact differential runs (exhaustive grid family + decimals).",
-   ref="DESIGN §4 C07",
-   note="Hypothesis NoClose (no two distinct entries equal under Interval.__eq__'s 1e-9 tolerance) is explicit in the theorems. "
-        "The universal floating-point clause is not a theorem: it is carried by layer R (hypotheses = monotone rounding laws) "
-        "and by the oracle/correspondence on decimal inputs. PointTier.eraseRegion and Textgrid.eraseRegion are checked by "
-        "correspondence + oracle (rejection of a>=b is proved for both tier kinds)."),
- "C08": dict(
-   text="Theorems over unbounded Int timestamps / any list length: insertSpace on a well-formed tier (lo <= s, d > 0) succeeds unless "
-        "mode='error' meets a straddler (then ArgumentError); the result is well-formed, every entry ending <= s is unchanged, "
-        "every entry starting >= s is moved by exactly d, the straddler is stretched / split around the gap / left alone per "
-        "mode, span start unchanged and span end + d; outside the gap the label function is the old one (shifted by d after "
-        "the gap), the split gap is unlabelled; composing with eraseRegion(s, s+d, truncate, shrink) restores the original "
-        "label-at-every-time function and span (stretch and split); point tiers: t <= s stay, later points + d. Tied to the "
-        "code by bit-exact differential runs incl. the composition.",
-   ref="DESIGN §4 C08",
-   note="The inverse theorem assumes NoClose for the intermediate tier (C07's separation hypothesis). Rounding: the repaired "
-        "arithmetic paths are compared bit for bit and checked by the oracle on decimals; no universal float theorem."),
- "C05": dict(
-   text="Theorems: (construct_wf) ANY tier the IntervalTier constructor returns is well-formed (time order, start<end, no overlap, "
-        "inside its span, stripped labels - str.strip() idempotence is proved), for arbitrary entry lists; it refuses only with "
-        "TextgridStateError / TimelessTextgridTierException; (step_wf) each of the 14 tier operations maps a well-formed tier to a "
-        "well-formed tier whenever it returns; (reachable_wf) induction over operation sequences of ANY length; validate() is True "
-        "on well-formed tiers. Histories of the real code are compared step-wise with the model (bit-exact) and every returned "
-        "tier is re-checked for well-formedness, validate() agreement and praatio-only exceptions.",
-   ref="DESIGN §4 C05",
-   note="Operations that delete by tolerant equality carry the separation hypothesis (OpOk). 'raises a praatio error' is "
-        "checked by the oracle; one known finding (deleteEntry of an absent entry raises ValueError). Point-tier operations and "
-        "the floating-point clause: correspondence + oracle."),
- "C09": dict(
-   text="Theorems: editTimestamps never fails in silence/warning mode (including empty / fully clipped tiers), moves every entry by "
-        "exactly the offset (drop if end<=0, clip start at 0), keeps labels/order, span = hull of old span and moved entries "
-        "(never shrinks, grown just enough); 'error' mode raises OutOfBounds iff a moved entry leaves the old span; +x then -x "
-        "restores the entries when nothing was clipped and entries are non-negative (with a proved counterexample and an iff for the "
-        "negative-time case); appendTier = A's entries ++ B's shifted by A.hi, span [A.lo, A.hi+B.hi]; Textgrid-level name lists for "
-        "editTimestamps and appendTextgrid(onlyMatchingNames). Tied to the code by bit-exact differential runs.",
-   ref="DESIGN §4 C09", note="PointTier.appendTier entry order at coinciding times is decided by the sort (checked, not stated as a theorem)."),
- "C10": dict(
-   text="Theorems (separation hypothesis SepTimes on the set of boundary times): difference is labelled exactly where A is and B is "
-        "not, with A's labels, same span; intersection has exactly one entry <max s, min e, 'a-b'> per overlapping pair (count "
-        "included) and its label function is the pairing of both; difference/intersection partition A's labelled time and never "
-        "overlap; union is labelled exactly where either operand is (nothing invented or lost) and every input entry lies inside "
-        "one output entry, so overlapping inputs are fused; mergeLabels keeps exactly the intervals of A that overlap B with their "
-        "extent. Exhaustive small-scope differential family (all pairs on a 4/6-cell grid x 4 ops) plus random pairs.",
-   ref="DESIGN §4 C10", note="Label order inside a fused union entry and point-tier union: correspondence + oracle only."),
- "C11": dict(
-   text="Theorems: no collision -> the entry is added, nothing else changes, span grows to min/max with the new entry; 'error' -> "
-        "CollisionError; 'replace' -> exactly the colliding entries are removed; 'merge' -> they are replaced by one entry with the "
-        "joint extent and the '-'-join of all labels in tuple order (the merged label is proved stripped); deleteEntry removes "
-        "exactly the entry / raises when no entry matches; every admissible insert/delete history of any length keeps the tier "
-        "well-formed. Step-wise bit-exact comparison along random histories.",
-   ref="DESIGN §4 C11", note="NoClose separation hypothesis explicit. Point tiers: two theorems (no collision, error) + correspondence."),
- "C14": dict(
-   text="Theorems: nearest() returns the first minimiser; lessThanOrEqual's 1e-14 slack made explicit; snap moves x to the nearest "
-        "reference iff within maxDifference (both directions); dejitter keeps count/order/labels, never reorders (snapping is "
-        "monotone), fails with TextgridStateError iff an interval collapses, ArgumentError on an empty reference; point tiers "
-        "likewise up to label order at ties; morph keeps labels, gives selected intervals the target durations, preserves gaps, "
-        "first start and trailing gap, SafeZipException on count mismatch; alignBoundaries leaves names and the reference tier "
-        "untouched and dejitters every other tier.",
-   ref="DESIGN §4 C14", note="The inclusive threshold on decimals is compared bit for bit; the oracle leaves a 1e-12 band around maxDifference."),
- "C15": dict(
-   text="Theorems: find (exact / substring) indices ascending and exact; getNonEntries + entries tile [0, hi] (unique cover, "
-        "touching, positive); timestamps strictly ascending with exactly the boundary set; getValuesInIntervals = filter; exact "
-        "value lookup with the carried index invariant (multi-point); fuzzy lookup returns a nearest sample; intervalOverlapCheck "
-        "= interval arithmetic (3 variants); invertIntervalList is the complement within bounds; equality reflexive, symmetric, "
-        "discriminating; validate() iff definition (tier, point tier, textgrid).",
-   ref="DESIGN §4 C15", note="Regex find and percentThreshold are checked by the oracle only (re / float division are parameters)."),
- "C06": dict(
-   text="Theorems over unbounded Int timestamps and entry lists of any length: the five-arm window/interval cascade equals "
-        "interval arithmetic in every mode; crop of a well-formed tier never fails for a<b, returns exactly the per-mode selection, "
-        "span = window (strict/truncated) or hull widened just enough (lax), rebasing shifts by min(a, first kept start) with span "
-        "[0, max(b-a, last end)], empty selection gives an empty tier, a>=b gives ArgumentError, truncated crop restricts the "
-        "label-at-time function to [a,b); point tiers keep a<=t<=b. Model tied to the code by bit-exact differential runs on an "
-        "exhaustive small-scope family plus random decimals.",
-   ref="DESIGN §4 C06",
-   note="Textgrid.crop is covered by C12's tier-wise theorem/check. Floating-point rounding of the rebased times is compared "
-        "bit for bit (model F-instance vs CPython), not proved."),
-}
+CLAIMS = {}
+for _fn in sorted(os.listdir(os.path.join(HERE, "claims"))):
+    if _fn.endswith(".json"):
+        CLAIMS[_fn[:-5]] = json.load(open(os.path.join(HERE, "claims", _fn)))   # {"text":..., "ref":..., "note":...}
 
 NOT_APPLICABLE = {}
 
